@@ -104,8 +104,12 @@ class SimpleModel(object):
             kw['spont_kwargs'] = {'scale': self.scale_s}
         if any(m == 'fn' for *_, m in self.induced):
             kw['nbr_kwargs'] = {'scale': self.scale_n}
-        return EoN.Gillespie_simple_contagion(self.G, H, J, IC, self.ret_full if full else self.ret_arr,
-                                              tmin=self.tmin, tmax=self.tmax, return_full_data=full, **kw)
+        args = [self.G, H, J, IC, self.ret_full if full else self.ret_arr]
+        kw.update(tmin=self.tmin, tmax=self.tmax, return_full_data=full)
+        if (len(self.case['gc']['edges']) + len(self.statuses)) % 2 == 1:
+            from .. import simrun
+            args, kw = simrun.positional('Gillespie_simple_contagion', args, kw)      # every argument by position, in the documented order
+        return EoN.Gillespie_simple_contagion(*args, **kw)
 
     def events(self, out):
         ev = []
